@@ -31,6 +31,8 @@ Of(a, f) == CASE f = "owned" -> a.owned [] f = "ref" -> a.ref [] f = "ref_mut" -
 Empty == [k |-> "forms", owned |-> "no", ref |-> "no", ref_mut |-> "no"]
 Top   == [k |-> "top", owned |-> "no", ref |-> "no", ref_mut |-> "no"]
 None  == [k |-> "none", owned |-> "no", ref |-> "no", ref_mut |-> "no"]
+\* `#[into()]`: a list of top-level types with no type in it - it stands for no conversion at all (and is NOT `#[into]`)
+Parens0 == [k |-> "parens0", owned |-> "no", ref |-> "no", ref_mut |-> "no"]
 
 (***************************************************************************)
 (* Doc                                                                     *)
@@ -38,6 +40,7 @@ None  == [k |-> "none", owned |-> "no", ref |-> "no", ref_mut |-> "no"]
 \* the conversions an attribute stands for: `#[into]` alone is the plain owned conversion
 DocAtoms(a) ==
     IF a.k = "top" THEN {<<"owned", "typed">>}
+    ELSE IF a.k = "parens0" THEN {}
     ELSE IF a = Empty THEN {<<"owned", "bare">>}
     ELSE {<<Forms[i], Of(a, Forms[i])>> : i \in {i \in 1..3 : Of(a, Forms[i]) \in {"bare", "typed"}}}
          \cup UNION {{<<Forms[i], "bare">>, <<Forms[i], "typed">>} : i \in {i \in 1..3 : Of(a, Forms[i]) = "both"}}
@@ -57,9 +60,10 @@ Components(n, skip) == SelectSeq([i \in 1..n |-> i], LAMBDA i : i \notin skip)
 (* a form when `consider_fields_ty || !tys.is_empty()`.                    *)
 (***************************************************************************)
 Conv(a, f) == IF a.k = "top" THEN [fields |-> FALSE, tys |-> f = "owned"]
+              ELSE IF a.k = "parens0" THEN [fields |-> FALSE, tys |-> FALSE]        \* Either::Right with nothing pushed
               ELSE [fields |-> Of(a, f) \in {"bare", "both"}, tys |-> Of(a, f) \in {"typed", "both"}]
 Default(f) == [fields |-> f = "owned", tys |-> FALSE]
-ImplConvs(a) == IF a.k # "top" /\ a = Empty THEN [f \in {"owned", "ref", "ref_mut"} |-> Default(f)]     \* Either::Left(empty)
+ImplConvs(a) == IF a.k = "forms" /\ a = Empty THEN [f \in {"owned", "ref", "ref_mut"} |-> Default(f)]     \* Either::Left(empty)
                 ELSE [f \in {"owned", "ref", "ref_mut"} |-> Conv(a, f)]
 ImplAtoms(convs) ==
     {<<f, "bare">> : f \in {f \in {"owned", "ref", "ref_mut"} : convs[f].fields}}
